@@ -157,6 +157,34 @@ impl Out {
         *self.per_op.entry(op).or_insert(0) += 1;
     }
 
+    /// `slice::sort` (stable), `Iterator::max` (last maximal), `Iterator::min` (first minimal),
+    /// `BTreeSet` (one representative per precedence class: the first inserted)
+    pub fn vsort(&mut self, vs: &[Version]) {
+        let args: Vec<String> = vs.iter().map(enc_version).collect();
+        let ans = guarded(|| {
+            let mut l = vs.to_vec();
+            l.sort();
+            let mut u = vs.to_vec();
+            u.sort_unstable();
+            let unstable_ok = l.len() == u.len() && l.iter().zip(u.iter()).all(|(a, b)| a == b);
+            // element-wise `insert` (documented: an equal element already present is kept); `collect()`
+            // bulk-builds and keeps the last of equal elements instead
+            let mut set: std::collections::BTreeSet<Version> = Default::default();
+            for v in vs {
+                set.insert(v.clone());
+            }
+            format!(
+                "{} max={} min={} unstable={} set={}",
+                if l.is_empty() { "-".to_string() } else { l.iter().map(enc_version).collect::<Vec<_>>().join("|") },
+                show_version_opt(vs.iter().max()),
+                show_version_opt(vs.iter().min()),
+                b01(unstable_ok),
+                if set.is_empty() { "-".to_string() } else { set.iter().map(enc_version).collect::<Vec<_>>().join("|") }
+            )
+        });
+        self.emit("vsort", &args, ans);
+    }
+
     pub fn vcmp(&mut self, a: &Version, b: &Version) {
         use std::collections::hash_map::DefaultHasher;
         use std::hash::{Hash, Hasher};
